@@ -214,6 +214,19 @@ impl TypeSpace {
             .collect();
         crate::merge::merge_all(schemas, &defs)
     }
+
+    /// The mutual-exclusivity analysis `anyOf` conversion relies on
+    /// (verification only; does not touch the type space).
+    pub fn verif_all_mutually_exclusive(
+        schemas: &[schemars::schema::Schema],
+        defs: &std::collections::BTreeMap<String, schemars::schema::Schema>,
+    ) -> bool {
+        let defs = defs
+            .iter()
+            .map(|(k, v)| (RefKey::Def(k.clone()), v.clone()))
+            .collect();
+        crate::util::all_mutually_exclusive(schemas, &defs)
+    }
 }
 
 /// The identifier sanitiser used for fields (snake) and types/variants
